@@ -164,6 +164,9 @@ func (o *awkOpt) SetDefaultOptions() {
 }
 
 func awk(fm *eval.Frame, opts awkOpt, f eval.Callable, inputs eval.Inputs) error {
+	if f == nil {
+		return errs.BadValue{What: "function", Valid: "function", Actual: "$nil"}
+	}
 	wordSep, err := makePattern(opts.Sep, opts.SepPosix, opts.SepLongest)
 	if err != nil {
 		return err
